@@ -1,5 +1,6 @@
 import FluteModel.Drv.Util
 import FluteModel.FdtAbs
+import FluteModel.Sched
 /-
   Line-protocol driver of the abstract FDT model (engine `fdtabs`).  Strings travel as opaque
   hex tokens (`-` = empty string, `~` = absent); the driver never looks inside them.
@@ -10,6 +11,10 @@ open Flute Flute.FdtAbs Flute.Drv
 structure DState where
   s : Option State := none
   popped : List Pub := []        -- instances taken from the queue so far (latest first)
+  /-- cross-model differential: agent sched's scheduler model (`FluteModel.Sched`) run on the same history; the
+      transfer starts / stops and the publications it DECIDES must be the ones the hints of the `rd` lines feed to
+      the abstract FDT model.  `none` = switched off for the rest of the case (FDT refused: Sched has no admission). -/
+  sched : Option Sched.State := none
 
 /-! ### parsing -/
 
@@ -273,11 +278,13 @@ inductive Hint where
   | poll
   | start (t : Nat)
   | stop (t : Nat)
+  | npk (n : Nat)      -- packets of the FDT transfer that starts in this call (library-determined length): for Sched only
 
 def hint? (t : String) : Option Hint :=
   if t = "p" then some .poll
   else if t.startsWith "s" then (nat? (t.drop 1).toString).map .start
   else if t.startsWith "e" then (nat? (t.drop 1).toString).map .stop
+  else if t.startsWith "n" then (nat? (t.drop 1).toString).map .npk
   else none
 
 def applyHints (s : State) (now : Nat) : List Hint → State × List Pub
@@ -291,11 +298,84 @@ def applyHints (s : State) (now : Nat) : List Hint → State × List Pub
         ((step s (.poll now)).1, q.take 1)
       | .start t => ((step s (.tstart t now)).1, [])
       | .stop t => ((step s (.tdone t now)).1, [])
+      | .npk _ => (s, [])
     let (s2, ps) := applyHints s1 now r
     (s2, popped ++ ps)
 
+/-- `is_xml_str` on the UTF-8 bytes of a hex token: no C0 control other than TAB / LF / CR, not U+FFFE / U+FFFF
+    (surrogates cannot occur in a Rust string; everything else is an XML 1.0 Char) -/
+def xmlOkBytes : List Nat → Bool
+  | 239 :: 191 :: 190 :: _ => false
+  | 239 :: 191 :: 191 :: _ => false
+  | b :: r => (b ≥ 32 || b = 9 || b = 10 || b = 13) && xmlOkBytes r
+  | [] => true
+
+def xmlOkTok (t : String) : Bool :=
+  match unhex t with
+  | some bs => xmlOkBytes bs
+  | none => true
+
 /-- the observed admission outcome of the FDT object for this call (`X` = `FileDesc::new` refuses it) -/
 def withAdmit (s : State) (b : Bool) : State := { s with cfg := { s.cfg with fdtFits := fun _ => b } }
+
+/-! ### the Sched model alongside (times in ns there, µs here) -/
+
+def carKind? (t : String) : Option (Option Sched.Carousel) :=
+  if t = "~" then some none
+  else if t.startsWith "d" then (nat? (t.drop 1).toString).map (fun n => some (.delay (n * 1000)))
+  else if t.startsWith "i" then (nat? (t.drop 1).toString).map (fun n => some (.interval (n * 1000)))
+  else none
+
+/-- packets of one transfer under an OTI: source symbols + parity symbols of every block -/
+def nPackets (o : Oti) (len : Nat) : Nat :=
+  match Partition.blockPartitioning o.maxSbl len o.esl with
+  | .ok q => divCeil len o.esl + o.parity * q.2.2.2
+  | .error _ => 0
+
+def schedEvents (old new : Sched.State) : List Sched.Ev :=
+  (new.log.take (new.log.length - old.log.length)).reverse
+
+def schedSE (evs : List Sched.Ev) : List String :=
+  evs.filterMap (fun e => match e with
+    | .start _ toi _ _ => some s!"s{toi}"
+    | .stop _ toi => some s!"e{toi}"
+    | _ => none)
+
+def schedPubs (st : Sched.State) (evs : List Sched.Ev) : List String :=
+  evs.filterMap (fun e => match e with
+    | .pub _ k files =>
+      let fid := match Sched.getF st.fdts k with | some f => f.fdtId | none => 0
+      some (s!"{fid}:" ++ ",".intercalate ((sortBy (fun x => x) files).map toString))
+    | _ => none)
+
+def showPubs (ps : List Pub) : List String :=
+  ps.map (fun p => s!"{p.id}:" ++ ",".intercalate ((sortBy (fun x => x) (p.inst.files.map (·.toi))).map toString))
+
+def hintSE (hs : List Hint) : List String :=
+  hs.filterMap (fun h => match h with
+    | .start t => some s!"s{t}"
+    | .stop t => some s!"e{t}"
+    | _ => none)
+
+/-- publications the abstract model makes while applying the hints -/
+def hintPubs (s : State) (now : Nat) : List Hint → List Pub
+  | [] => []
+  | h :: r =>
+    let st := match h with
+      | .poll => FdtAbs.step s (.poll now)
+      | .start t => FdtAbs.step s (.tstart t now)
+      | .stop t => FdtAbs.step s (.tdone t now)
+      | .npk _ => (s, [], .unit)
+    st.2.1 ++ hintPubs st.1 now r
+
+/-- tell Sched how many packets the FDT transfer starting in this call has -/
+def schedSetNpk (st : Sched.State) (n : Nat) : Sched.State :=
+  let k := st.fdts.length
+  let tbl := (List.range (k + 1)).map (fun i => if i = k then n else Sched.tblGet st.fdtPkts i)
+  let st := { st with fdtPkts := tbl }
+  match st.fdtQueue with
+  | h :: _ => { st with fdts := Sched.updF st.fdts h (fun f => { f with nSym := n }) }
+  | [] => st
 
 /-! ### step -/
 
@@ -310,8 +390,11 @@ def step (d : DState) (args : List String) : DState × String :=
     | some sid, some dur, some oti, some gr, some [_, tw, ti] =>
       if (mode = "f" || mode = "o") && (tw = 16 || tw = 32 || tw = 48 || tw = 64 || tw = 80 || tw = 112) then
         let cfg : Cfg := { mode := if mode = "f" then .fullFdt else .beingTransferred, startId := sid,
-                           durationUs := dur, oti := oti, groups := gr, toiBits := tw, toiInit := ti }
-        ({ s := some (init cfg), popped := [] }, "ok")
+                           durationUs := dur, oti := oti, groups := gr, toiBits := tw, toiInit := ti,
+                           xmlOk := xmlOkTok }
+        let scfg : Sched.Cfg := { mode := if mode = "f" then .full else .being, fdtCarousel := .delay 200000000,
+                                  fdtDuration := dur * 1000, fdtStartId := sid, queues := [(0, 3)] }
+        ({ s := some (init cfg), popped := [], sched := some (Sched.init scfg []) }, "ok")
       else (d, "bad-op")
     | _, _, _, _, _ => (d, "bad-op")
   | "rxabs" :: now :: rest =>
@@ -333,7 +416,18 @@ def step (d : DState) (args : List String) : DState × String :=
                               cenc := ce, md5 := md5, etag := etag, groups := gr, cache := cc, oti := oti,
                               maxTransferCount := mtc, carousel := car }
         let r := add s a
-        ({ d with s := some r.1 },
+        -- Sched: the same object with the scheduler's view of it (packets per transfer, count, carousel)
+        let sch := match r.2, d.sched, r.1.files.getLast?, carKind? (args.getD 12 "~") with
+          | .ok t, some st, some fd, some ck =>
+            -- scope of the differential: objects whose number of packets per transfer this driver can state without
+            -- the FEC libraries (No-Code / Reed-Solomon, non-empty, at least one transfer); otherwise off for the case
+            if fd.oti.enc = 6 || fd.oti.enc = 1 || tl = 0 || mtc = 0 then none else
+            let aa : Sched.AddArgs := { prio := 0, nSym := nPackets fd.oti tl, maxCount := mtc, carousel := ck,
+                                        start := none, target := none, allowStop := false }
+            some (Sched.addObject { st with nextToi := t } aa).1
+          | .ok _, _, _, _ => none
+          | _, st, _, _ => st
+        ({ d with s := some r.1, sched := sch },
           match r.2 with
           | .ok t => s!"ok {t}"
           | .err => "ERR"
@@ -342,29 +436,58 @@ def step (d : DState) (args : List String) : DState × String :=
     | _, _, _, _, _ => (d, "bad-op")
   | ["rm", toi] =>
     match nat? toi with
-    | some t => let r := remove s t; ({ d with s := some r.1 }, if r.2 then "true" else "false")
+    | some t =>
+      let r := remove s t
+      ({ d with s := some r.1, sched := d.sched.map (fun st => (Sched.removeObject st t).1) }, if r.2 then "true" else "false")
     | none => (d, "bad-op")
   | ["pub", now] =>
     match nat? now with
-    | some now => ({ d with s := some (FdtAbs.step (withAdmit s true) (.publish now)).1 }, "ok")
+    | some now =>
+      let r := FdtAbs.step (withAdmit s true) (.publish now)
+      let sch := if r.2.2 = .published false then none else d.sched.map (fun st => Sched.publishOp st (now * 1000))
+      ({ d with s := some r.1, sched := sch }, if r.2.2 = .published false then "ERR" else "ok")
     | none => (d, "bad-op")
   | ["pub", now, "X"] =>
     match nat? now with
     | some now =>
       let r := FdtAbs.step (withAdmit s false) (.publish now)
-      ({ d with s := some r.1 }, if r.2.2 = .published false then "ERR" else "ok")
+      ({ d with s := some r.1, sched := none }, if r.2.2 = .published false then "ERR" else "ok")
     | none => (d, "bad-op")
-  | ["complete"] => ({ d with s := some (setComplete s) }, "ok")
+  | ["complete"] =>
+    ({ d with s := some (setComplete s), sched := d.sched.map (fun st => Sched.step st .setComplete) }, "ok")
   | "rd" :: now :: hints0 =>
     let refused := hints0.head? = some "X"
     let hints := if refused then hints0.drop 1 else hints0
     match nat? now, hints.mapM hint? with
     | some now, some hs =>
       let (s1, pops) := applyHints (withAdmit s (!refused)) now hs
-      ({ s := some s1, popped := pops.reverse ++ d.popped },
-        -- EXT_FDT = 192 | V(4 bit) | instance id (20 bit): the version nibble as the wire shows it (V = 2, RFC 6726)
+      -- the scheduler model decides on its own; its decisions must be the hints
+      let (sch, diverge) : Option Sched.State × Option String :=
+        match d.sched with
+        | none => (none, none)
+        | some st =>
+          if refused then (none, none) else
+          let st := match hs.filterMap (fun h => match h with | .npk n => some n | _ => none) with
+            | n :: _ => schedSetNpk st n
+            | [] => st
+          -- the event log is write-only for the scheduler: start every call with an empty one
+          let st := { st with log := [] }
+          let st' := (Sched.read st (now * 1000) []).1
+          let evs := schedEvents st st'
+          let se := schedSE evs
+          let sp := schedPubs st' evs
+          let hp := showPubs (hintPubs (withAdmit s true) now hs)
+          if st'.panic.isSome then (none, some "SCHED-DIVERGE panic")
+          else if se ≠ hintSE hs then (none, some ("SCHED-DIVERGE sched=" ++ ",".intercalate se ++ " hints=" ++ ",".intercalate (hintSE hs)))
+          else if sp ≠ hp then (none, some ("SCHED-DIVERGE schedpubs=" ++ "|".intercalate sp ++ " model=" ++ "|".intercalate hp))
+          else (some st', none)
+      match diverge with
+      | some msg => ({ s := some s1, popped := pops.reverse ++ d.popped, sched := none }, msg)
+      | none =>
+      ({ s := some s1, popped := pops.reverse ++ d.popped, sched := sch },
+        -- EXT_FDT = 192 | V(4 bit) | instance id (20 bit): `push_fdt` masks the id to 20 bits, V = 2 (RFC 6726)
         if pops.isEmpty then "ok"
-        else "ok pop " ++ ",".intercalate (pops.map (fun p => s!"{p.id % 2^20}v{(2 + p.id / 2^20) % 16}")))
+        else "ok pop " ++ ",".intercalate (pops.map (fun p => s!"{p.id % 2^20}v2")))
     | _, _ => (d, "bad-op")
   | ["inst", id] =>
     match nat? id with
@@ -376,7 +499,9 @@ def step (d : DState) (args : List String) : DState × String :=
     | _, _ => (d, "bad-op")
   | ["cur", now] =>
     match nat? now with
-    | some now => (d, showInst (instanceAt s now))
+    | some now =>
+      -- `to_xml` refuses FDT-level groups that XML 1.0 cannot carry
+      (d, if (s.cfg.groups.getD []).all s.cfg.xmlOk then showInst (instanceAt s now) else "ERR")
     | none => (d, "bad-op")
   | ["fl"] => (d, "fl " ++ showList ((sortBy id (s.files.map (·.toi))).map toString))
   | _ => (d, "bad-op")
